@@ -8,7 +8,8 @@ EXPLAIN = ('For every implementation of AxelarExecutableInterface::execute found
            'a validation Result that is dropped establishes nothing; no try_ (non-trapping) gateway call; '
            '(R2) argument identity of that call with the entry parameters; (R3) generic: no Result-typed value is '
            'dropped unread anywhere in workspace contract code (zero-expected). "Exactly once" composes with C02.R3 '
-           '(the consume marks the message executed).')
+           '(the consume marks the message executed); (R4) the gateway-side binding rules C02.R2-R5 (approval stores the hash of the whole five-field message, consume '
+           'compares it for caller = the app and marks it executed) are evaluated as part of this property.')
 NOT_DECIDED = 'gateway-side semantics are C02; host rollback T1.'
 ASSUME = ['T1', 'T2', 'T5', 'T6']
 
@@ -125,6 +126,10 @@ def check(P, rep):
         trys = [e for e in effects(g) if e.kind in ('xcall', 'invoke') and e.try_]
         rep.check(not trys, 'C16.R1', '%s::execute:no-try-calls' % cn, 'no non-trapping (try_) cross-contract call on the path',
                   entry_id(g), '; '.join(x.describe() for x in trys)[:200])
+    # R4 gateway side of the same statement: what "the gateway holds an unexecuted approval naming that application, the same source
+    # chain, message id and source address, and the hash of exactly the delivered payload" means is decided by the gateway's own
+    # approve / consume rules (C02.R2-R5); they are part of this property's verdict
+    gateway_binding(P, rep, 'C16.R4')
     # R3 dropped results, all crates
     nd = 0
     seen = set()
@@ -142,6 +147,24 @@ def check(P, rep):
     if nd == 0:
         rep.ok('C16.R3', 'no Result-typed call result is dropped unread in any workspace instance', 'all crates')
     rep.count('dropped_results', nd)
+
+
+def gateway_binding(P, rep, rule):
+    from report import Report
+    from rules import c02
+    sub = Report('C02', rep.tier)
+    c02.check(P, sub)
+    n = 0
+    for o in sub.obligations:
+        if o['rule'] not in ('C02.R2', 'C02.R3', 'C02.R4', 'C02.R5', 'FLOOR'):
+            continue
+        n += 1
+        if o['ok']:
+            rep.ok(rule, 'gateway binding: ' + o['what'], o.get('site'))
+        else:
+            rep.bad(rule, 'gateway:' + o['key'], 'gateway-side approval binding broken (the app would accept deliveries the statement excludes): ' + o['what'],
+                    o.get('site'), o.get('detail'), o.get('witness'))
+    rep.floor('gateway approval-binding obligations', n, 15)
 
 
 def effect_tag(e):
